@@ -414,11 +414,22 @@ func propC03(c *Ctx, r *Report) {
 	}
 	// applied completely: every transfer output of an executed batch is credited (shared with C04-R3)
 	r.rule("C03-R8/outputs-credited", 1, "only the burn address is exempt from being credited")
+	ruleOutputsCredited(c, r, "C03-R8/outputs-credited")
+}
+
+// ruleOutputsCredited: every transfer output of a recorded batch is credited with its own amount at its own
+// address, the burn address being the one exemption.
+func ruleOutputsCredited(c *Ctx, r *Report, rule string) {
 	rb := c.fn("node.Pegnetd.recordBatch")
+	n := 0
 	for _, a := range c.findCallsFam(rb, "pegnet.Pegnet.AddToBalance") {
 		if typePath(a.Common().Args[4]) == "fat2.AddressAmountTuple.Amount" {
-			burnExemptionRule(c, r, a.Parent(), a, "C03-R8/outputs-credited", "")
+			n++
+			burnExemptionRule(c, r, a.Parent(), a, rule, "")
 		}
+	}
+	if n == 0 {
+		r.viol(rule, "transfer outputs credited one by one", c.pos(rb.Pos()), "no credit in recordBatch takes the amount of a transfer output itself: outputs are no longer credited one by one with the amount the batch lists for them (a sum kept across outputs or transactions pays amounts the input was not debited for)")
 	}
 }
 
